@@ -85,7 +85,7 @@ def _unit_rand(rng):
 
 def _perp(u, rng):
     while True:
-        w = np.cross(u, _unit_rand(rng))
+        w = g.cross3(u, _unit_rand(rng))
         n = np.linalg.norm(w)
         if n > 1e-3:
             return w / n
@@ -279,7 +279,7 @@ def _az_0_2pi(sez6):
 def _fov_ref(shape, size, p, t):
     """(expected or None if inside a band / undefined, straddles the seam?)."""
     if shape == "conic":
-        th = g.angle_between(p, t)
+        th = g.angle3(p, t)
         half = size[0] / 2
         # band: arccos conditioning eps/sin(theta) at theta ~ half >= 8.7e-4 rad; calibrated worst 1.9*eps/sin(half) over 1e6
         # threshold cases = 5e-13 rad at the smallest cone; band 1e-9 rad
@@ -429,7 +429,7 @@ def gen_fov(rng, shape):
         u = g.unit(p[:3])
         # position angle of the target around the boresight: random, or along the local parallel towards/away from north
         if rng.random() < 0.5 and abs(u[2]) < 0.999:
-            wv = g.unit(np.cross([0.0, 0.0, 1.0], u)) * rng.choice([-1, 1])
+            wv = g.unit(g.cross3([0.0, 0.0, 1.0], u)) * rng.choice([-1, 1])
         else:
             wv = _perp(u, rng)
         tpos = (math.cos(th) * u + math.sin(th) * wv) * 10 ** rng.uniform(0, 5)
@@ -463,7 +463,7 @@ def _sun_abc(r, S):
     ns, nr = float(np.linalg.norm(s)), float(np.linalg.norm(r))
     a = math.atan2(R_SUN, math.sqrt(max(ns * ns - R_SUN * R_SUN, 0.0)))
     b = math.atan2(RE, math.sqrt(max(nr * nr - RE * RE, 0.0)))
-    c = g.angle_between(-r, s)
+    c = g.angle3(-r, s)
     return a, b, c
 
 
